@@ -228,3 +228,15 @@ Proof.
     intros k. specialize (E k). cbn [sm_get] in E. destruct (bytes_eqb k k1) eqn:Ek; [|exact E].
     apply bytes_eqb_eq in Ek. subst k. rewrite (sm_get_below k1 t1 A1), (sm_get_below k1 t2 A2). reflexivity.
 Qed.
+
+(* writing the value a key already has changes nothing *)
+Lemma sm_insert_idem k v m : sm_sorted m -> sm_get k m = Some v -> sm_insert k v m = m.
+Proof.
+  unfold sm_sorted. induction m as [|[k1 v1] t IH]; cbn [sm_get sm_insert map fst]; intros Hs Hg; [discriminate|].
+  apply SSorted_cons_inv in Hs. destruct Hs as [Hs Hall].
+  destruct (bytes_eqb k k1) eqn:E.
+  - apply bytes_eqb_eq in E. subst k1. inv Hg. rewrite ltb_irrefl. reflexivity.
+  - assert (Hlt : blt k1 k).
+    { rewrite Forall_forall in Hall. apply Hall. apply sm_get_In in Hg. apply (in_map fst) in Hg. exact Hg. }
+    unfold blt in Hlt. rewrite (ltb_asym _ _ Hlt). f_equal. apply IH; assumption.
+Qed.
